@@ -40,6 +40,26 @@ def observe_law(d):
     return ("other", name)
 
 
+_sz_cache = {}
+
+
+def _sz_quantile(mw, mn, u):
+    """smallest integer k with sum_{j<=k} pmf(j) >= u for the documented Schulz-Zimm mass function; None when the (slightly deficient) total does not reach u"""
+    import numpy as np
+    from scipy import special
+
+    key = (mw, mn)
+    if key not in _sz_cache:
+        z = mn / (mw - mn)
+        ks = np.arange(1, int(mn * (1 + 40 / math.sqrt(z))) + 50, dtype=float)
+        logp = (z + 1) * math.log(z) - special.gammaln(z + 1) + (z - 1) * np.log(ks) - z * math.log(mn) - z * ks / mn
+        _sz_cache[key] = np.cumsum(np.exp(logp))
+    c = _sz_cache[key]
+    if c[-1] < u + 1e-6:
+        return None
+    return float(int(np.searchsorted(c, u - 1e-12)) + 1)
+
+
 def check(rep):
     from gbigsmiles.distribution import get_distribution
 
@@ -116,7 +136,9 @@ def check(rep):
             continue
         t = distrun.text(fam, args)
         d = get_distribution(t)
-        for u in ([0.1, 0.5, 0.9] if quick else [0.02, 0.1, 0.3, 0.5, 0.7, 0.9, 0.98]):
+        for u in ([0.1, 0.5, 0.9, 0.999] if quick else [0.02, 0.1, 0.3, 0.5, 0.7, 0.9, 0.98, 0.999, 0.99999]):
+            if fam == "schulz_zimm" and _sz_quantile(args[0], args[1], u) is None:
+                continue      # the quantile lies above the law's (deficient) total mass: scipy's search for it does not return (C11's known finding)
             try:
                 v = float(d.draw_mw(distrun.URNG(u)))
             except Exception:
@@ -128,8 +150,13 @@ def check(rep):
                    "poisson": lambda: _st.poisson.ppf(u, args[0]),
                    # documented meaning log_normal(Mn, dispersity): ln m ~ N(ln Mn - ln(D)/2, ln D)
                    "log_normal": lambda: _st.lognorm.ppf(u, s=math.sqrt(math.log(args[1])), scale=args[0] / math.sqrt(args[1])),
+                   # schulz_zimm(Mw, Mn): the documented mass function summed over the integers (its total is 1 within 2e-3 for z >= 1, C11);
+                   # smallest k whose cumulative mass reaches u -- no bound on the support
+                   "schulz_zimm": lambda: _sz_quantile(args[0], args[1], u),
                    # flory_schulz(a): smallest k with 1 - (1-a)^k (1 + k a) >= u
                    "flory_schulz": lambda: next(k for k in range(1, 100000) if 1 - (1 - args[0]) ** k * (1 + k * args[0]) >= u - 1e-12)}.get(fam)
+            if ref is not None and ref() is None:
+                continue
             if ref is not None and abs(v - ref()) > 1e-4 * max(1, abs(ref())):
                 rep.fail("oracle", f"{t}: the draw for quantile {u} is {v}, the declared law's quantile is {ref()}", {"text": t, "u": u}, expected=ref(), observed=v)
     rep.coverage.update({"evaluations": evaluations + nq, "distinct_nontrivial": len(distinct), "parameter_sets": len(G), "scripted_quantile_draws": nq,
